@@ -674,15 +674,18 @@ def write_extent(ctx, config="all"):
                         pt = a.pointee_ty(arg["l"])
                         if pt is None or pt.get("k") != "slice":
                             continue
-                        if name in prog.bodies:
-                            if prog.bodies[name]["file"] == "src/bytes.rs":
-                                work.append((name, j + 1))   # private helper: analysed itself
-                            continue
-                        n += 1
                         lk = a.len_key(arg["l"], st)
                         iv = None
                         if lk is not None:
                             iv = (lk[1], lk[1]) if lk[0] == "const" else a.get(st, lk)
+                        if name in prog.bodies:
+                            n += 1
+                            if iv is not None and iv[1] <= want:
+                                continue     # the helper receives at most BYTES bytes: whatever it does stays inside
+                            if prog.bodies[name]["file"] == "src/bytes.rs":
+                                work.append((name, j + 1))   # it receives the whole buffer: analysed itself
+                            continue
+                        n += 1
                         if iv is None or iv[1] > want:
                             bad = bad or (name, v.where(bi), cfg, iv, want)
         b0 = prog.bodies[k0]
